@@ -19,8 +19,14 @@ static void case_c09(const drvargs_t *a,long id){
   char desc[700]; static char cbuf[VH_MAXLINKS][3][64]; static const char *cptr[VH_MAXLINKS][3];
   res_begin(id);
   int maxl = a->thorough ? (id%10==0?40:12) : 8;
-  gen_chain(&r,maxl,a->thorough?30000:14000,GC_ALLOW_EMPTY|GC_MULTICH|GC_MANAGED,&cd);
+  gen_chain(&r,maxl,a->thorough?30000:14000,GC_GOFFSET|GC_ALLOW_EMPTY|GC_MULTICH|GC_MANAGED,&cd);
   if(cd.nlinks>12) for(int i=0;i<cd.nlinks;i++) if(cd.cfg[i].nsamples>4000) cd.cfg[i].nsamples/=4;
+  if(id%10==9){ /* large links (each well over the 64 KiB the open-time bisection reads at a time), so that the bisection really bisects */
+    if(cd.nlinks<3) cd.nlinks=3+(int)rng_below(&r,3); if(cd.nlinks>6) cd.nlinks=6;
+    for(int i=0;i<cd.nlinks;i++){ enccfg_t *c=&cd.cfg[i]; if(c->rate==0){ *c=cd.cfg[0]; cd.serial[i]=cd.serial[0]+977*i+1; cd.policy[i]=cd.policy[0]; cd.fill[i]=cd.fill[0]; }
+      c->mode=ENC_VBR; c->channels= rng_chance(&r,0.6)?2:1; c->rate= rng_chance(&r,0.7)?44100:48000; c->quality=(float)(0.5+0.5*rng_unit(&r)); c->sig= rng_chance(&r,0.5)?SIG_NOISE:SIG_BURSTS; c->sigseed=rng_next(&r);
+      c->nsamples=(long)rng_range(&r,40000,a->thorough?260000:150000); c->chunk=CHUNK_RANDOM; if(rng_chance(&r,0.2)) c->nsamples=(long)rng_range(&r,0,3000);
+      for(int j=0;j<i;j++) if(cd.serial[j]==cd.serial[i]) cd.serial[i]+=7919*(i+1); } }
   for(int i=0;i<cd.nlinks;i++){
     snprintf(cbuf[i][0],64,"LINK=%d-%llx",i,(unsigned long long)rng_next(&r));
     snprintf(cbuf[i][1],64,"title=chain %ld",id);
@@ -190,7 +196,7 @@ static void case_c10(const drvargs_t *a,long id){
   rng_t r; rng_seed(&r,a->seed,10,(uint64_t)id);
   chaindesc_t cd; buf_t phys; buf_init(&phys); char desc[700];
   res_begin(id);
-  gen_chain(&r,a->thorough?6:4,a->thorough?24000:9000,GC_ALLOW_EMPTY|GC_MULTICH|GC_MANAGED,&cd);
+  gen_chain(&r,a->thorough?6:4,a->thorough?24000:9000,GC_GOFFSET|GC_ALLOW_EMPTY|GC_MULTICH|GC_MANAGED,&cd);
   chain_describe(&cd,desc,sizeof desc);
   if(id%4==3){ if(build_chain_mixed(&r,&cd,pick_modelmask(&r,cd.nlinks),40,8,&phys,NULL,desc,sizeof desc)){ res_sample("refused: %s",desc); res_end(); buf_free(&phys); return; } }
   else
@@ -415,7 +421,7 @@ static void case_c20(const drvargs_t *a,long id){
   rng_t r; rng_seed(&r,a->seed,20,(uint64_t)id);
   chaindesc_t cd; buf_t phys; buf_init(&phys); char desc[700];
   res_begin(id);
-  gen_chain(&r,a->thorough?6:4,a->thorough?30000:12000,GC_ALLOW_EMPTY|GC_MULTICH,&cd);
+  gen_chain(&r,a->thorough?6:4,a->thorough?30000:12000,GC_GOFFSET|GC_ALLOW_EMPTY|GC_MULTICH,&cd);
   chain_describe(&cd,desc,sizeof desc);
   if(build_chain(&cd,&phys,NULL)){ res_sample("encoder refused: %s",desc); res_end(); buf_free(&phys); return; }
   vh_dump("stream.ogg",phys.p,phys.n);
@@ -531,7 +537,7 @@ static void case_c19(const drvargs_t *a,long id){
   rng_t r; rng_seed(&r,a->seed,19,(uint64_t)id);
   chaindesc_t cd; buf_t phys; buf_init(&phys); char desc[700];
   res_begin(id);
-  gen_chain(&r,a->thorough?6:4,a->thorough?24000:10000,GC_ALLOW_EMPTY|GC_MULTICH,&cd);
+  gen_chain(&r,a->thorough?6:4,a->thorough?24000:10000,GC_GOFFSET|GC_ALLOW_EMPTY|GC_MULTICH,&cd);
   chain_describe(&cd,desc,sizeof desc);
   if(id%4==3){ if(build_chain_mixed(&r,&cd,pick_modelmask(&r,cd.nlinks),40,8,&phys,NULL,desc,sizeof desc)){ res_sample("refused: %s",desc); res_end(); buf_free(&phys); return; } }
   else
